@@ -38,6 +38,18 @@ CHECKS = {
         "trusted: the call-event budget as a stand-in for termination; catastrophic-backtracking patterns excluded (stated in DESIGN.md)",
         "exhaustive enumeration of a bounded extreme schema x value product on the real code, outcome-class invariant",
     ),
+    "C13": (
+        "E2-history",
+        "Breadth-first search over all operation histories up to depth 3 (quick) / 4 (thorough) on six kinds of live objects (untyped element, element with properties, String, Array, model class, subclass) with an alphabet of keyword assignments, property add/replace/delete/wholesale assignment and validation calls; in every state the live object's verdict+result vector over 28 probes equals that of a freshly constructed object carrying the reference model's configuration.",
+        "trusted: the reference config model in mc/checks/c13.py; operation alphabet and depth bound as stated",
+        "explicit-state BFS over reconfiguration/validation histories on real objects, differential against a freshly built twin in every state",
+    ),
+    "C15": (
+        "E2-history",
+        "All parent/child declarations over an 11-keyword class menu (sizes <=1 x <=2 and 2 x <=1, 5 property moves, chain length 2 and 3) are executed and the child compared with the flat class (verdicts, results, JSON), instances with isinstance, the parent observed before/after; plus BFS to depth 3/4 over histories of defining, using and reconfiguring children with the parent's full observation as state invariant.",
+        "trusted: flat-class construction in mc/checks/c15.py; in-place mutation of inherited keyword values and docstring descriptions are outside the alphabet",
+        "exhaustive enumeration of inheritance declarations + explicit-state BFS over define/use/reconfigure histories, parent-unchanged invariant",
+    ),
 }
 
 PENDING_REASON = "check not built yet in this session (planned in DESIGN.md section 4); no claim is made until its machinery exists"
